@@ -123,6 +123,27 @@ func (f *frame) external(n *node, callee *ssa.Function, full string, args []Val,
 		}
 		return Val{T: rt}, true
 	}
+	// time.Date: the same fields give the same instant (an uninterpreted function of its
+	// arguments; what it normalises is not modelled)
+	if full == "time.Date" && len(args) == 8 {
+		ok := true
+		var terms, sorts []string
+		for _, a := range args {
+			if len(a.C) != 1 {
+				ok = false
+				break
+			}
+			terms = append(terms, a.C[0])
+			cs := x.comps(a.T)
+			sorts = append(sorts, cs[0].sort)
+		}
+		if ok {
+			x.note("trusted: time.Date is a pure function of its arguments")
+			x.g.Raw("sort:"+opaqueSort("time.Time"), "(declare-sort "+opaqueSort("time.Time")+" 0)")
+			fn := g.Fun("time:Date", sorts, opaqueSort("time.Time"))
+			return Val{T: rt, C: []string{g.Fresh(opaqueSort("time.Time"), "("+fn+" "+strings.Join(terms, " ")+")")}}, true
+		}
+	}
 	// time.Time getters: uninterpreted functions of the (opaque) time value, within the
 	// ranges the library documents
 	if strings.HasPrefix(full, "(time.Time).") && len(args) >= 1 && len(args[0].C) == 1 {
